@@ -229,9 +229,20 @@ def rule_rxn_drop_bookkeeping(ck, repo, R):
         ck.require(f is not None, f'{fq} not found')
         tries = [t for t in ast.walk(f.node) if isinstance(t, ast.Try) and any(isinstance(c, ast.Call) and src(c.func) == 'molecules.append' for s_ in t.body for c in ast.walk(s_))]
         ck.require(len(tries) == 1, f'{fq}: try around molecules.append(parse_mol...) not found')
+        # statements that follow the try in the same block are what a handler that completes normally runs next
+        from .astutil import enclosing_map as _em2
+        pm2 = _em2(f.node)
+        par = pm2.get(tries[0])
+        after = []
+        for field in ('body', 'orelse'):
+            blk = getattr(par, field, None)
+            if isinstance(blk, list) and tries[0] in blk:
+                after = blk[blk.index(tries[0]) + 1:]
         for h in tries[0].handlers:
             n += 1
             o = outcome(h.body)
+            if 'fall' in o:
+                o = (o - {'fall'}) | outcome(after)
             ck.decide(o <= {'dec', 'raise'}, R, f'{f.qualname}:except {src(h.type) if h.type else ""}', sorted(o),
                       f'{f.qualname}: `except {src(h.type) if h.type else ""}` can complete without decrementing the role counts: the dropped component still '
                       f'occupies a slot of its role and the next role loses its first molecule', file=f.file, line=h.lineno, func=f.qualname)
@@ -303,3 +314,36 @@ def rule_rdf_header_once(ck, repo, R):
               f'_RDFWrite.__init__: under `{src(test)}` the header is {"written" if bad and bad[0][3] else "not written"} for (append, is_buffer, position) = '
               f'{[b[:3] for b in bad]}; it must be written exactly when the target is fresh (no append, or an empty file)',
               file=f.file, line=ifs[0].lineno, func=f.qualname, construct=src(test))
+
+
+def rule_first_m_end(ck, repo, R):
+    """C11: an SDF record is `mol block` + `data fields`; the mol block ends at the FIRST `M  END` line. Data-field values are free text and may contain such a line,
+    so the boundary must not move once it is set"""
+    from .astutil import reach_conditions, enclosing_map
+    ck.rule(R, 'SDFRead._read_block records the mol-block boundary only while it is still unset: the assignment of the boundary inside the line loop is reached only under '
+               '"not set yet" (a later `M  END` inside a data value must not move it)')
+    f = repo.cls('chython.files.SDFrw:SDFRead').method('_read_block')
+    ck.require(f is not None, 'SDFRead._read_block not found')
+    pm = enclosing_map(f.node)
+    sites = []
+    for a in ast.walk(f.node):
+        if isinstance(a, ast.Assign) and any('m_end' in src(t) for t in a.targets) and not (isinstance(a.value, ast.Constant) and a.value.value is None):
+            p_ = pm.get(a)
+            inloop = False
+            while p_ is not None and p_ is not f.node:
+                if isinstance(p_, (ast.For, ast.While)):
+                    inloop = True
+                p_ = pm.get(p_)
+            if inloop:
+                sites.append(a)
+    ck.require(len(sites) == 1, f'_read_block: {len(sites)} boundary assignments inside the line loop, 1 confirmed by hand')
+    a = sites[0]
+    names = {src(t) for t in a.targets}
+    first_only = False
+    for c in reach_conditions(a, f.node, pm):
+        t = src(c)
+        if any(t in (f'not {n}', f'{n} is None', f'{n} == None') for n in names):
+            first_only = True
+    ck.decide(first_only, R, 'first-wins', sorted(names),
+              f'SDFRead._read_block sets {sorted(names)} at every line starting with `M  END`: a data-field value that contains such a line (an embedded molfile) moves the boundary, '
+              f'the field it belongs to and every field before it are lost', file=f.file, line=a.lineno, func=f.qualname, construct=src(a))
